@@ -55,6 +55,13 @@ class _Awaitable:
         return self._coro.__await__()
 
 
+class _FalsyAwaitable(_Awaitable):
+    """an awaitable that is falsy until it has been awaited (a lazy result set with a __len__)"""
+
+    def __len__(self):
+        return 0
+
+
 class Ctx:
     """consumer factories bound to one run"""
 
@@ -104,7 +111,7 @@ class Ctx:
                     log.add('EDIT', nid, 'self-detach', k)
                     self.nodes[nid].destroy()
             return sink
-        if kind in ('coro', 'awaitable'):
+        if kind in ('coro', 'awaitable', 'awaitable_falsy'):
             async def body(x, k, c):
                 log.add('START', nid, x, k, c)
                 d = self._svc(spec, k)
@@ -120,6 +127,8 @@ class Ctx:
                 state['k'] += 1
                 c = cause()
                 log.add('CALLED', nid, x, k, c)
+                if kind == 'awaitable_falsy':
+                    return _FalsyAwaitable(body(x, k, c))
                 if kind == 'awaitable':
                     return _Awaitable(body(x, k, c))     # neither a Future nor a coroutine object: just __await__
                 return body(x, k, c)
@@ -359,6 +368,10 @@ def run_async(case, max_steps=400):
                         # a lifecycle call placed in the producer's timeline: v = [node id, 'start' | 'stop']
                         log.add('EDIT', 'call', v[0], v[1])
                         getattr(S[v[0]], v[1])()
+                        continue
+                    if e == '!connect':
+                        log.add('EDIT', 'connect', v[0], v[1])
+                        S[v[0]].connect(S[v[1]])
                         continue
                     if e == '!disconnect':
                         # a graph edit placed in the producer's timeline: v = [upstream id, downstream id]
@@ -653,9 +666,20 @@ def local_checks(case, ar, check_md=True):
     # edges
     edges = [(u, s['id']) for s in prog['nodes'] for u in s.get('ups', [])]
     edges += [tuple(e) for e in prog.get('extra_edges', [])]
+    edits = [e for e in ar.log.ev if e[2] == 'EDIT' and e[3] in ('connect', 'disconnect')]
     for u, v in edges:
         bump('edges_checked')
         sent = [e for e in outs.get(u, [])]
+        mine = [e for e in edits if e[4] == u and e[5] == v]
+        if mine:
+            # the edge was cut (and perhaps restored) during the run: only what was emitted while it existed travels over it
+            def connected_at(idx):
+                state = True
+                for e in mine:
+                    if e[0] < idx:
+                        state = e[3] == 'connect'
+                return state
+            sent = [e for e in sent if connected_at(e[0])]
         got = [e for e in ins.get(v, []) if e[4] == u]
         sv = specs[v]
         a = [_v(e[4]) for e in sent]
